@@ -26,6 +26,28 @@
    * refutation `invalid_span_old_off_boundary`: the span of an unrecognised
      multi-byte character was `start..start+1` on the unchanged tree.
 
+   * T5 — in `Props/C06Unify.lean`, so that a broken fact about unification
+     does not hide the lexer theorems —
+     (unification, `Model/Unify.lean` over the union-find store, with the
+     arms of `occurs`, the variables `find` / `find_ref` / `resolve_type`
+     follow and the guard in front of every `unionfind.set` of `unify_inner`
+     REGENERATED from the source on every run):
+       `occurs_arms_complete`, `lookup_arms_ok`, `unify_sets_guarded`
+                          obligations on the generated facts: the occurs check
+                          searches every child that can hold a variable; every
+                          binding of a compound type stands behind it;
+       `occurs_check_sound`  a negative occurs check means the variable cannot
+                          be reached;
+       `unify_terminates_partial`  unification (successful or not) keeps an
+                          acyclic store acyclic, and in an acyclic store every
+                          lookup and every deep traversal returns;
+       `find_compression_harmless`  path compression keeps the store acyclic;
+       `unify_old_creates_cycle`  refutation on the unchanged tree: the arms
+                          that bind a RECORD variable had no occurs check and the
+                          never type unifies with anything — witness
+                          `fn main(l: List[!]) { let a = { f: l }; let b = { f: [[a]] }; a == b; }`
+                          (replayed on the real code: corpus/C06/19).
+
   NOT proved (covered by the crash oracle only — exploration): the bodies of
   the parser and the type checker, lowering and code generation.
 -/
